@@ -159,7 +159,21 @@ PROPS["C07"] = {
     "partial": "pixel centres within the corner box; WCS library (floating point)",
 }
 
+PROPS["C09"] = {
+    "gen": ["MultiTan", "Study", "Masks", "PIO", "Stage"],
+    "trusted_base": ["astropy: FITS I/O, WCS header round trip, `ensure_negative_parity` / `flip_parity` on the header (C16) are exercised, not modelled",
+                     "reference-pixel offsets between inputs are integers (the code compares the grid-defining headers for equality); `int(np.floor/ceil)` are the identity there",
+                     "cross-process exclusion on a shared tile is the C10 theorem (SoftFileLock protocol), the hand-off of inputs to workers the C03 theorem"],
+    "assumptions": COMMON_ASSUME + ["inputs are non-empty images on one TAN grid"],
+    "partial": "",
+}
+
 LEVEL_TEXT = {
+    "C09": {
+        "text": "The extent / running-bounds / size / CRPIX / placement arithmetic of compute_global_pixelization and the rectangle loop of the serial path and of the worker (flip formulas, update_image with default='masked') are re-extracted each run. Kernel-checked for every list of inputs: the bounds contain every input and are attained on all four sides (the mosaic is the bounding box), each input is placed inside it with its own size, the CRPIX written is the same whichever input comes last and coincides with every input's own reference pixel; an input's sub-tiling sends its pixel (u,v) to the tile and in-tile position the mosaic's tiling gives to (ox+u, oy+v) (C08); hence merging the inputs one after another into cleared tiles yields, pixel for pixel, the tiles of the mosaic assembled with the same merge (undefined never replaces defined: C15); where overlapping inputs are compatible (float data: one undefined or both equal) any permutation of the inputs gives the same mosaic and the same bounds, and two different defined values are not compatible; for bottom-up tiles the re-addressed rectangle stores row 255 - r of the top-down tile. Real MultiTanProcessor runs (1-6 overlapping inputs with undefined borders, stored top-down / bottom-up / mixed, fits / npy output, 1 and 3 workers, shuffled order) are read back tile by tile against the assembled mosaic, against the real code's single-image run incl. the astrometric description, and checked for leftover lock files; each run's global pixelisation is replayed through the model.",
+        "note": "trusted: Lean kernel; extraction (gen_more.gen_multitan); the harness. Interleaving safety is inherited from C03/C10, not re-proved here.",
+        "technique": "Lean 4 proof (fold / permutation arguments over extracted arithmetic, composed with the C08 and C15 theorems) + differential read-back of real runs",
+    },
     "C07": {
         "text": "Kernel-checked in exact arithmetic, for every corner set and every box (any longitude origin, any width incl. > 2π, wrap-around): the five-comparator network sorts and permutes; the unwrapping loop, when it ends, leaves a sorted range at most π wide containing every corner longitude up to whole turns; steps 3-4 answer true whenever a longitude strictly inside that range coincides mod 2π with a longitude of the box; hence the bbox test has no false negatives w.r.t. the tile's own corner box, and pole tiles whose latitude range meets the box are accepted. Chunk arithmetic re-extracted from jpeg2000.py / samplers.py each run: every map pixel lies in exactly one chunk; a chunk's sampler maps a sky position (not on a pixel boundary) to the chunk-local index of the same pixel the whole-map sampler (C11) reads, and keeps it iff that pixel is in the chunk; a chunk's bounds strictly contain all its pixel centres. The refinement of _image_bounds samples along the right axis of each edge, at gaps of at most one pixel, and a pole inside the image sets the latitude bound. The compiled bbox test, the transliterated .pyx and the model are run on the same exact inputs; boxes, WCS images and chunks are checked by brute force over all pixel centres of all tiles to depth 4-5 incl. ancestors; filtered vs full sampling and chunk-by-chunk vs whole-map sampling are compared pixel by pixel.",
         "note": "trusted: Lean kernel; extraction (gen_more.gen_filter, pyx2py); the harness. The link from a tile's pixel centres to its corner box and the WCS library are validated numerically only.",
